@@ -88,11 +88,14 @@ impl Gauss {
         let mut k = 0;
 
         while h < m && k < n {
-            // find the row with the largest value in the current pivot column (k)
-            let mut max = (0, f64::MIN);
+            // find the row with the largest MAGNITUDE in the current pivot column (k):
+            // textbook partial pivoting. (Taking the largest signed value could choose a
+            // regulariser-sized entry such as -eps/2 over an entry of size -1e6: multipliers
+            // of 1e14 and an answer made of rounding noise.)
+            let mut max = (h, 0.0f64);
             for i in h..m {
-                if self.left[(i, k)] >= max.1 {
-                    max = (i, self.left[(i, k)])
+                if self.left[(i, k)].abs() >= max.1 {
+                    max = (i, self.left[(i, k)].abs())
                 }
             }
             let i = max.0;
